@@ -69,6 +69,10 @@ func (pe *propertiesEncoder) Encode(writer io.Writer, node *CandidateNode) error
 
 	mapKeysToStrings(node)
 	p := properties.NewProperties()
+	// values are data, not templates: `${x}` in a value is written as it is (as the decoder reads it);
+	// with expansion on, every Set expands all references to look for cycles, which is exponential
+	// for values that mention each other and refuses values that merely look circular
+	p.DisableExpansion = true
 	p.WriteSeparator = pe.prefs.KeyValueSeparator
 	err := pe.doEncode(p, node, "", nil)
 	if err != nil {
